@@ -350,6 +350,7 @@ let run_decode (id : ostring) (body : Sx.t list) : ostring =
             | Ok t -> "ok:" ^ hex_of_ostring (ostr (render (marshal_tx t)))
             | Err _ -> "err")
         | _ -> (match unmarshal_blocks on_curve sha256 tree with
+            | Ok _ when tree = JNull -> "ok:" ^ hex_of_ostring "null"   (* a nil slice is re-encoded as null, not [] *)
             | Ok l -> "ok:" ^ hex_of_ostring (ostr (render (JArr (List.map (function None -> JNull | Some b -> marshal_block b) l))))
             | Err _ -> "err") in
       let g = if derr_ok go then go else "err" in
